@@ -12,7 +12,7 @@ D == Traces[t][1]
 Ev == Traces[t][l]
 TInit == /\ t \in 1 .. NT
          /\ l = 2
-         /\ shape = <<>> /\ cache = <<>> /\ last = <<>>
+         /\ shape = <<>> /\ cache = <<>> /\ rerr = <<>> /\ last = <<>>
          /\ LET s == Structure(Traces[t][1]) IN s # "" => PrintT(<<"DEV", t, 1, s>>)
          /\ (Len(Traces[t]) = 1 => PrintT(<<"END", t, 1>>))
 
